@@ -202,6 +202,26 @@ namespace
             c.rel_tol = 1e-8;
             out.push_back(c);
           }
+    // the same with the ridge along the equator: the closest ridge point of (lon, lat) is (lon, 0), the distance R * |lat| and the velocity interpolated linearly in longitude
+    for (double lr : {2.0, 179.0, -179.0, 350.0}) for (double v0 : {0.03, 0.06}) for (double v1 : {0.03, 0.09})
+          {
+            Case c; c.family = "temperature/half space model (spherical)"; c.label = "oceanic plate, ridge along the equator around longitude " + num(lr) + ", spreading velocity " + num(v0) + " .. " + num(v1);
+            c.spherical = true;
+            c.world = world(globals(true), {area_feature(1, true, 0, "\"temperature models\":[{\"model\":\"half space model\",\"max depth\":1e5,\"top temperature\":280,\"bottom temperature\":1600,\"spreading velocity\":[[0,[[" + num(v0) + "," + num(v1) + "]]]],"
+                                                         "\"ridge coordinates\":[[[" + num(lr - 8) + ",0],[" + num(lr + 8) + ",0]]]}]", lr - 6, lr + 6)});
+            for (double dl : {-5.0, -2.0, 0.0, 3.0, 5.0}) for (double lat : {-4.0, -1.0, 0.5, 3.0}) for (double d : {1e4, 5e4}) c.probes.push_back({lr + dl, lat, d});
+            c.request = {{{1,0,0}}};
+            c.expect = [=](const Probe &p)
+            {
+              Expect e; e.defined = true;
+              const LD dist = R_EARTH * fabsl(static_cast<LD>(p.y)) * PIl / 180, vel = v0 + (static_cast<LD>(v1) - v0) * (static_cast<LD>(p.x) - (lr - 8)) / 16;
+              const LD age = dist / (vel / YEAR);
+              e.value = 1600 + (280 - 1600.0L) * erfcl(static_cast<LD>(p.depth) / (2 * sqrtl(G_KAPPA * age)));
+              return e;
+            };
+            c.rel_tol = 1e-8;
+            out.push_back(c);
+          }
     // composition (uniform, with fractions and operations on top of an earlier feature), velocity and grains of area features
     for (unsigned f = 0; f < 3; ++f) for (int sph = 0; sph < 2; ++sph)
         {
